@@ -347,6 +347,29 @@ def paths_may_alias(eng, st, p1, p2):
     return cond   # one path may be a prefix of the other: overlapping
 
 
+def _candidate_pairs(es):
+    """all pairs of accesses to one object that can overlap: accesses whose paths start with different
+    concrete indices cannot, so they are bucketed by that index (linear for long concrete loops)"""
+    groups, wild = {}, []
+    for e in es:
+        p = e[3]
+        if p and isinstance(p[0], int):
+            groups.setdefault(p[0], []).append(e)
+        else:
+            wild.append(e)
+    for g in groups.values():
+        if len(g) > 1 and (any(x[4] for x in g)) and len({x[0] for x in g}) > 1:
+            for i in range(len(g)):
+                for j in range(i + 1, len(g)):
+                    yield g[i], g[j]
+    for i in range(len(wild)):
+        for j in range(i + 1, len(wild)):
+            yield wild[i], wild[j]
+        for g in groups.values():
+            for b in g:
+                yield wild[i], b
+
+
 def check_races(eng, st):
     acc = st.ghost.get('access') or []
     by_obj = {}
@@ -355,9 +378,8 @@ def check_races(eng, st):
     res = eng.cur_result['asserts'].setdefault('no-data-race', {'checked': 0, 'failed': 0, 'unknown': 0, 'trivial': 0})
     reported = 0
     for obj, es in by_obj.items():
-        for i in range(len(es)):
-            for j in range(i + 1, len(es)):
-                a, b = es[i], es[j]
+        for a, b in _candidate_pairs(es):
+            if True:
                 if a[0] == b[0] or not (a[4] or b[4]):
                     continue
                 if hb(a[0], a[1], b[1]) or hb(b[0], b[1], a[1]):
